@@ -67,6 +67,10 @@ class K:
     self.a = a
 '''
 SUB_ALPHA = '''
+import gin
+@gin.configurable('subcustom_{pk}')
+def decorated(z=0):
+  return ('{pk}.sub.alpha.decorated', z)
 def fa(x=0):
   return ('{pk}.sub.alpha.fa', x)
 class Deep:
